@@ -68,6 +68,7 @@ def run(ctx):
     rep.floor('R5c', 4)
     div0(ctx)
     conversions(ctx, table)
+    conversions2(ctx, table)
     rep.floor('CFG-1a', 4 * 50)
     rep.floor('R1', 6)
     rep.floor('R2', 8)
@@ -817,3 +818,46 @@ def block_contents(ctx, table):
                 rep.ok('R5c', name, 'every position of the block receives the element the definition prescribes (%d symbolic queries, sizes symbolic)' % nq, loc=loc)
         except (Unsupported, fm.NonLinear) as e:
             rep.unk('R5c', name, str(e), loc=loc)
+
+
+def conversions2(ctx, table):
+    """R6 (continued): spherical pair and the degree/radian scalings"""
+    rep = ctx.rep
+    at2 = sp.Function('atan2')
+    for name in ('a_real_cart2sph', 'a_real_sph2cart', 'a_real_rad2deg', 'a_real_deg2rad'):
+        fn = ctx.fn('math', name)
+        if fn is None:
+            rep.unk('R6', name, 'anchor vanished')
+            continue
+        loc = fn.loc(fn.entry.instrs[0])
+        try:
+            dom = RDom(table)
+            if name == 'a_real_cart2sph':
+                x, y, z = dom.sym('x', real=True), dom.sym('y', real=True), dom.sym('z', real=True)
+                lv = symx.Interp(dom, lambda n: None, inline=lambda n: False).run(fn, [x, y, z, Ptr('rho', 0), Ptr('theta', 0), Ptr('alpha', 0)])
+                st = lv[0].store
+                rho, th, al = [sp.sympify(st[(k, 0)][0]) for k in ('rho', 'theta', 'alpha')]
+                r = sp.sqrt(x ** 2 + y ** 2)
+                ok = len(lv) == 1 and alg.is_zero(rho ** 2 - x ** 2 - y ** 2 - z ** 2) and th == at2(y, x) and \
+                    al.func == at2 and al.args[0] == z and alg.is_zero(sp.sympify(al.args[1]) ** 2 - r ** 2)
+                msg = 'rho = hypot(hypot(x,y),z), theta = atan2(y,x), alpha = atan2(z, hypot(x,y))'
+                got = '(%s, %s, %s)' % (rho, th, al)
+            elif name == 'a_real_sph2cart':
+                rho, th, al = dom.sym('rho', real=True), dom.sym('theta', real=True), dom.sym('alpha', real=True)
+                lv = symx.Interp(dom, lambda n: None).run(fn, [rho, th, al, Ptr('x', 0), Ptr('y', 0), Ptr('z', 0)])
+                st = lv[0].store
+                x, y, z = [sp.sympify(st[(k, 0)][0]) for k in ('x', 'y', 'z')]
+                ok = len(lv) == 1 and alg.is_zero(x - rho * sp.cos(al) * sp.cos(th)) and alg.is_zero(y - rho * sp.cos(al) * sp.sin(th)) and alg.is_zero(z - rho * sp.sin(al))
+                msg = 'x = rho cos(alpha) cos(theta), y = rho cos(alpha) sin(theta), z = rho sin(alpha)'
+                got = '(%s, %s, %s)' % (x, y, z)
+            else:
+                x = dom.sym('x', real=True)
+                lv = symx.Interp(dom, lambda n: None).run(fn, [x])
+                r = sp.sympify(lv[0].ret)
+                want = x * 180 / sp.pi if name == 'a_real_rad2deg' else x * sp.pi / 180
+                ok = len(lv) == 1 and alg.is_zero(sp.simplify(r - want))
+                msg = 'x * 180/pi' if name == 'a_real_rad2deg' else 'x * pi/180'
+                got = str(r)
+            (rep.ok if ok else rep.bad)('R6', name, msg if ok else 'computes %s, expected %s' % (got, msg), loc=loc, **({} if ok else {'key': '%s: formula' % name}))
+        except (Unsupported, KeyError, IndexError) as e:
+            rep.unk('R6', name, str(e), loc=loc)
